@@ -131,29 +131,41 @@ func SwapUint32(addr *uint32, v uint32) uint32 {
 //go:norace
 func CompareAndSwapInt32(addr *int32, old, new int32) bool {
 	y(unsafe.Pointer(addr))
-	defer w(unsafe.Pointer(addr))
-	return atomic.CompareAndSwapInt32(addr, old, new)
+	ok := atomic.CompareAndSwapInt32(addr, old, new)
+	if ok {
+		w(unsafe.Pointer(addr))
+	}
+	return ok
 }
 
 //go:norace
 func CompareAndSwapInt64(addr *int64, old, new int64) bool {
 	y(unsafe.Pointer(addr))
-	defer w(unsafe.Pointer(addr))
-	return atomic.CompareAndSwapInt64(addr, old, new)
+	ok := atomic.CompareAndSwapInt64(addr, old, new)
+	if ok {
+		w(unsafe.Pointer(addr))
+	}
+	return ok
 }
 
 //go:norace
 func CompareAndSwapUint32(addr *uint32, old, new uint32) bool {
 	y(unsafe.Pointer(addr))
-	defer w(unsafe.Pointer(addr))
-	return atomic.CompareAndSwapUint32(addr, old, new)
+	ok := atomic.CompareAndSwapUint32(addr, old, new)
+	if ok {
+		w(unsafe.Pointer(addr))
+	}
+	return ok
 }
 
 //go:norace
 func CompareAndSwapUint64(addr *uint64, old, new uint64) bool {
 	y(unsafe.Pointer(addr))
-	defer w(unsafe.Pointer(addr))
-	return atomic.CompareAndSwapUint64(addr, old, new)
+	ok := atomic.CompareAndSwapUint64(addr, old, new)
+	if ok {
+		w(unsafe.Pointer(addr))
+	}
+	return ok
 }
 
 //go:norace
@@ -179,8 +191,11 @@ func SwapPointer(addr *unsafe.Pointer, v unsafe.Pointer) unsafe.Pointer {
 //go:norace
 func CompareAndSwapPointer(addr *unsafe.Pointer, old, new unsafe.Pointer) bool {
 	y(unsafe.Pointer(addr))
-	defer w(unsafe.Pointer(addr))
-	return atomic.CompareAndSwapPointer(addr, old, new)
+	ok := atomic.CompareAndSwapPointer(addr, old, new)
+	if ok {
+		w(unsafe.Pointer(addr))
+	}
+	return ok
 }
 
 type Bool struct{ v atomic.Bool }
@@ -201,8 +216,11 @@ func (b *Bool) Swap(x bool) bool {
 //go:norace
 func (b *Bool) CompareAndSwap(o, n bool) bool {
 	y(unsafe.Pointer(b))
-	defer w(unsafe.Pointer(b))
-	return b.v.CompareAndSwap(o, n)
+	ok := b.v.CompareAndSwap(o, n)
+	if ok {
+		w(unsafe.Pointer(b))
+	}
+	return ok
 }
 
 type Int32 struct{ v atomic.Int32 }
@@ -230,8 +248,11 @@ func (b *Int32) Swap(x int32) int32 {
 //go:norace
 func (b *Int32) CompareAndSwap(o, n int32) bool {
 	y(unsafe.Pointer(b))
-	defer w(unsafe.Pointer(b))
-	return b.v.CompareAndSwap(o, n)
+	ok := b.v.CompareAndSwap(o, n)
+	if ok {
+		w(unsafe.Pointer(b))
+	}
+	return ok
 }
 
 type Int64 struct{ v atomic.Int64 }
@@ -259,8 +280,11 @@ func (b *Int64) Swap(x int64) int64 {
 //go:norace
 func (b *Int64) CompareAndSwap(o, n int64) bool {
 	y(unsafe.Pointer(b))
-	defer w(unsafe.Pointer(b))
-	return b.v.CompareAndSwap(o, n)
+	ok := b.v.CompareAndSwap(o, n)
+	if ok {
+		w(unsafe.Pointer(b))
+	}
+	return ok
 }
 
 type Uint32 struct{ v atomic.Uint32 }
@@ -281,8 +305,11 @@ func (b *Uint32) Add(x uint32) uint32 {
 //go:norace
 func (b *Uint32) CompareAndSwap(o, n uint32) bool {
 	y(unsafe.Pointer(b))
-	defer w(unsafe.Pointer(b))
-	return b.v.CompareAndSwap(o, n)
+	ok := b.v.CompareAndSwap(o, n)
+	if ok {
+		w(unsafe.Pointer(b))
+	}
+	return ok
 }
 
 type Uint64 struct{ v atomic.Uint64 }
@@ -303,8 +330,11 @@ func (b *Uint64) Add(x uint64) uint64 {
 //go:norace
 func (b *Uint64) CompareAndSwap(o, n uint64) bool {
 	y(unsafe.Pointer(b))
-	defer w(unsafe.Pointer(b))
-	return b.v.CompareAndSwap(o, n)
+	ok := b.v.CompareAndSwap(o, n)
+	if ok {
+		w(unsafe.Pointer(b))
+	}
+	return ok
 }
 
 type Value struct{ v atomic.Value }
@@ -325,8 +355,11 @@ func (b *Value) Swap(x interface{}) interface{} {
 //go:norace
 func (b *Value) CompareAndSwap(o, n interface{}) bool {
 	y(unsafe.Pointer(b))
-	defer w(unsafe.Pointer(b))
-	return b.v.CompareAndSwap(o, n)
+	ok := b.v.CompareAndSwap(o, n)
+	if ok {
+		w(unsafe.Pointer(b))
+	}
+	return ok
 }
 
 type Pointer[T any] struct{ v atomic.Pointer[T] }
@@ -347,6 +380,9 @@ func (b *Pointer[T]) Swap(x *T) *T {
 //go:norace
 func (b *Pointer[T]) CompareAndSwap(o, n *T) bool {
 	y(unsafe.Pointer(b))
-	defer w(unsafe.Pointer(b))
-	return b.v.CompareAndSwap(o, n)
+	ok := b.v.CompareAndSwap(o, n)
+	if ok {
+		w(unsafe.Pointer(b))
+	}
+	return ok
 }
